@@ -266,13 +266,13 @@ def coq_show(tag, preamble, term, timeout=300):
 # --------------------------------------------------------------------------------------------
 # harness
 
-def harness_build(profile="release", rustflags=None):
+def harness_build(domain, profile="release", rustflags=None):
     with Lock("cargo"):
         lock_src = os.path.join(REPO, "Cargo.lock")
         lock_dst = os.path.join(HARNESS, "Cargo.lock")
         if not os.path.exists(lock_dst):
             open(lock_dst, "w").write(open(lock_src).read())
-        cmd = ["cargo", "build", "--offline", "--quiet"]
+        cmd = ["cargo", "build", "--offline", "--quiet", "--bin", domain]
         if profile == "release":
             cmd.append("--release")
         env = {}
@@ -282,10 +282,10 @@ def harness_build(profile="release", rustflags=None):
     if rc != 0:
         errs = [l for l in out.splitlines() if l.startswith("error")]
         raise Tie("harness does not build against the current tree (%s)" % "; ".join(errs[:3]), out[-3000:])
-    return os.path.join(TARGET, "release" if profile == "release" else "debug", "pkharness")
+    return os.path.join(TARGET, "release" if profile == "release" else "debug", domain)
 
 
-def harness_run(binary, domain, cases, timeout=900, nproc=None):
+def harness_run(binary, cases, timeout=900, nproc=None):
     """Run cases (list of JSON-able dicts) through `pkharness <domain>`; returns list of outputs.
     Cases are split over several processes; a crashing process is bisected to one case."""
     nproc = nproc or min(NPROC, max(1, len(cases) // 50))
@@ -294,7 +294,7 @@ def harness_run(binary, domain, cases, timeout=900, nproc=None):
     procs = []
     for ci, ch in enumerate(chunks):
         data = "".join(json.dumps(c) + "\n" for c in ch)
-        p = subprocess.Popen([binary, domain], stdin=subprocess.PIPE, stdout=subprocess.PIPE,
+        p = subprocess.Popen([binary], stdin=subprocess.PIPE, stdout=subprocess.PIPE,
                              stderr=subprocess.PIPE, text=True, env=dict(os.environ, RUST_BACKTRACE="0"))
         procs.append((ci, ch, p, data))
     for ci, ch, p, data in procs:
@@ -310,13 +310,13 @@ def harness_run(binary, domain, cases, timeout=900, nproc=None):
         else:
             # process died (abort / stack overflow / timeout): run one by one to isolate
             for j, c in enumerate(ch):
-                outs[ci + j * nproc] = harness_one(binary, domain, c)
+                outs[ci + j * nproc] = harness_one(binary, c)
     return outs
 
 
-def harness_one(binary, domain, case, timeout=60):
+def harness_one(binary, case, timeout=60):
     try:
-        p = subprocess.run([binary, domain], input=json.dumps(case) + "\n", stdout=subprocess.PIPE,
+        p = subprocess.run([binary], input=json.dumps(case) + "\n", stdout=subprocess.PIPE,
                            stderr=subprocess.PIPE, text=True, timeout=timeout,
                            env=dict(os.environ, RUST_BACKTRACE="0"))
     except subprocess.TimeoutExpired:
